@@ -221,7 +221,28 @@ def run(tier, seed, ck: Check):
             tid = f"bad:{j}"
             recs.append(rb.trace_record(tid, [l + "\n" for l in c["lines"]], ys, err if err in dict(rb.ERRMAP).values() else ("other" if err else "")))
             meta[tid] = {"lines": c["lines"], "yields": ys, "err": err, "expected": expected_items(c["logical"]), "pyok": False}
+        # (d) every free-form reader run of the repository's own test-suite (recorded by a pytest plugin of the harness)
+        suite, summary = rb.suite_records(common.REPO)
+        ck.coverage["suite_run"] = summary
+        skipped = {}
+        suite_groups = {}
+        for j, x in enumerate(suite):
+            why = "fixed form / preprocessed" if (x["fixed"] or x["preprocessed"]) else ("reader abandoned by the parser" if not x["done"] else rb.traceable(x["fed"], x["yields"]))
+            if why is None and x["err"]:
+                why = "reader raised"
+            if why:
+                skipped[why] = skipped.get(why, 0) + 1
+                continue
+            mk = json.dumps(x["marks"], sort_keys=True)
+            tid = f"suite:{j}"
+            suite_groups.setdefault(mk, []).append(rb.trace_record(tid, x["fed"], x["yields"], ""))
+            meta[tid] = {"lines": [l.rstrip("\n") for l in x["fed"]], "yields": x["yields"], "file": x["file"]}
+        ck.coverage["suite_reader_runs"] = {"recorded": len(suite), "validated": sum(len(v) for v in suite_groups.values()), "skipped": skipped}
         verdicts = []
+        for mk, group in suite_groups.items():
+            verdicts.extend(rb.validate_traces(group, json.loads(mk), AS_BUILT_DEV)[0])
+        if len(verdicts) < 50:
+            raise tlc.TLCFailure(f"only {len(verdicts)} reader runs of the repository's test-suite could be validated ({skipped})")
         B = 1500
         batches = [recs[i:i + B] for i in range(0, len(recs), B)]
         for vs in pool_threads(lambda b: rb.validate_traces(b, MARKS, AS_BUILT_DEV)[0], batches):
@@ -246,7 +267,7 @@ def run(tier, seed, ck: Check):
                 fid = FINDING_OF_DEV[AS_BUILT_DEV[0]]
                 if ck.known_finding(fid):
                     continue
-            if tid.startswith("file:"):
+            if tid.startswith(("file:", "suite:")):
                 ck.count()
             ck.violation("reader-vs-lexical-rules", case, expected=m.get("expected"), observed=m["yields"], detail=detail)
         ck.coverage["model_drift_traces"] = drift
